@@ -7,7 +7,7 @@ gs def <field>*              field = Name|type|tag;tag;…|view      (no spaces 
                              type "bool" sets IsBool; view = ranks of the accessor results of the
                              field's values (comma separated, may be empty)
                              -> ok <raw sorter names, sorted> | err:<class>
-gs chain <raw>               -> value|ptr <TypeName> <body of Less as S-expression>
+gs chain <raw>               -> value|ptr <TypeName> <body of Less as S-expression, `Cmp.normalize`d>
 gs lessall <raw> <recs>      -> Less(i,j) for all i,j (row major, t/f)
 gs sort <raw> <recs>         -> perm:t <key projection of the ascending permutation>
 gs stable <raw> <recs>       -> input positions in the order sort.Stable leaves them
@@ -103,7 +103,7 @@ def handle (st : St) (ws : List String) : St × String :=
       let lessOf (a b : List Nat) : Bool := s.less.eval Nat.blt (recOf st.fields a) (recOf st.fields b)
       match op, rest with
       | "chain", [] =>
-        (st, joinSp [if s.usePointer then "ptr" else "value", s.typeName, showCmp s.less])
+        (st, joinSp [if s.usePointer then "ptr" else "value", s.typeName, showCmp s.less.normalize])
       | "lessall", [rw] =>
         match parseRecs rw with
         | none => (st, "bad-op")
